@@ -156,3 +156,20 @@ Proof.
       * simpl. lia.
       * simpl. lia.
 Qed.
+
+(** ** Structure of finite floats. *)
+Lemma bounded_inv : forall mx ex,
+  SpecFloat.bounded 53 1024 mx ex = true -> (Z.pos mx < 2 ^ 53)%Z /\ (-1074 <= ex)%Z.
+Proof.
+  intros mx ex H. unfold SpecFloat.bounded in H. apply andb_prop in H. destruct H as [H _].
+  unfold SpecFloat.canonical_mantissa in H. apply Zeq_bool_eq in H.
+  unfold SpecFloat.fexp, SpecFloat.emin in H.
+  rewrite Digits.Zpos_digits2_pos in H.
+  assert (D : (Digits.Zdigits radix2 (Z.pos mx) <= 53)%Z) by lia.
+  split; [|lia].
+  generalize (Digits.Zdigits_correct radix2 (Z.pos mx)). intros [_ Hlt].
+  rewrite Z.abs_eq in Hlt by lia.
+  apply Z.lt_le_trans with (1 := Hlt).
+  change (2 ^ 53)%Z with (radix2 ^ 53)%Z.
+  apply Zpower_le. exact D.
+Qed.
